@@ -1006,6 +1006,7 @@ class SSHConnection(SSHPacketHandler, asyncio.Protocol):
         self._auth_in_progress = False
         self._auth_complete = False
         self._auth_final = False
+        self._auth_request_seq = 0
         self._auth_methods = [b'none']
         self._auth_was_trivial = True
         self._username = ''
@@ -2528,10 +2529,20 @@ class SSHConnection(SSHPacketHandler, asyncio.Protocol):
             else:
                 begin_auth = False
 
-            self.create_task(self._finish_userauth(begin_auth, method, packet))
+            # A new request aborts whatever is still in progress for
+            # earlier requests (RFC 4252 section 5.1), so that a late
+            # result for an earlier request can't complete this one
+            self._auth_request_seq += 1
 
-    async def _finish_userauth(self, begin_auth: bool, method: bytes,
-                               packet: SSHPacket) -> None:
+            if self._auth:
+                self._auth.cancel()
+                self._auth = None
+
+            self.create_task(self._finish_userauth(
+                self._auth_request_seq, begin_auth, method, packet))
+
+    async def _finish_userauth(self, request_seq: int, begin_auth: bool,
+                               method: bytes, packet: SSHPacket) -> None:
         """Finish processing a user authentication request"""
 
         if not self._owner: # pragma: no cover
@@ -2542,16 +2553,25 @@ class SSHConnection(SSHPacketHandler, asyncio.Protocol):
             # pylint: disable=no-member
             await cast(SSHServerConnection, self).reload_config()
 
+            if request_seq != self._auth_request_seq:
+                return
+
             result = cast(SSHServer, self._owner).begin_auth(self._username)
 
             if inspect.isawaitable(result):
                 result = await cast(Awaitable[bool], result)
+
+            if request_seq != self._auth_request_seq:
+                return
 
             if not result:
                 await self.send_userauth_success()
                 return
 
         if not self._owner: # pragma: no cover
+            return
+
+        if self._auth_complete:
             return
 
         if self._auth:
